@@ -40,6 +40,9 @@ def gen_history(rng, long=False):
                   "delta_norm_cap_l2": rng.choice([1.5, 100.0]), "novelty_cap_per_node": rng.choice([0.3, 1.0]), "churn_cap_edges": rng.choice([0, 2, 64, 64])}}
     if rng.random() < 0.3:
         cfg["t4"]["cooldowns"] = {"EditGraph": rng.choice([0, 2])}
+    # several namespaces (outside the validator's one-name enumeration; set on the live config after validation): some that
+    # hold entries, some that were never created in the manager
+    raw_ns = rng.choice([None, None, ["never:created", "t2:semantic"], ["t2:semantic", "x:ns"], ["x:ns", "never:created", "t2:semantic"], ["x:ns"], ["t2:semantic", "t2:semantic"]])
     turns = []
     tid = rng.choice([0, 1, 5])
     for i in range(rng.randint(5, 30 if long else 12)):
@@ -55,7 +58,7 @@ def gen_history(rng, long=False):
         turns.append({"turn_id": t_id, "agent": rng.choice(["A", "B"]), "text": f"hello world {i}", "deltas": deltas, "fault": fault, "exc": exc,
                       "fail_idx": fail_idx, "t4_enabled": rng.random() < 0.8, "store_kind": rng.choice(["world"] * 8 + ["no-apply", "absent"])})
         tid = tid + 1 if isinstance(tid, int) else 1
-    return {"cfg": cfg, "turns": turns}
+    return {"cfg": cfg, "turns": turns, "raw_namespaces": raw_ns}
 
 
 def check_history(case, sess: Session):
@@ -81,9 +84,11 @@ def check_history(case, sess: Session):
         state["_cache_mgr"] = cm
         n_every = int(env.cfg["t4"]["snapshot_every_n_turns"])
         bust = env.cfg["t4"]["cache_bust_mode"]
+        if case.get("raw_namespaces"):
+            env.cfg["t4"]["cache"]["namespaces"] = list(case["raw_namespaces"])
         namespaces = list(env.cfg["t4"]["cache"]["namespaces"])
         for ti, t in enumerate(case["turns"]):
-            tcase = {"cfg": case["cfg"], "turns": case["turns"][:ti + 1]}
+            tcase = {"cfg": case["cfg"], "turns": case["turns"][:ti + 1], "raw_namespaces": case.get("raw_namespaces")}
             env.cfg["t4"]["enabled"] = bool(t["t4_enabled"])
             # store for this turn
             state["active_graphs"] = ["g0"]
@@ -119,7 +124,7 @@ def check_history(case, sess: Session):
                 elif t["fault"] == "second-call":
                     real_store.script = [None, excs]  # unreachable unless the hand-off is split into several calls
             # sentinels
-            for ns in ("t2:semantic", "other:ns"):
+            for ns in ("t2:semantic", "other:ns", "x:ns"):
                 cm.set(ns, ("sentinel", ti), "v")
             size_other_before = cm._ns["other:ns"].size()
             ver_before = state.get("version_etag")
@@ -231,6 +236,13 @@ def check_history(case, sess: Session):
             applied_path = st is not None and callable(getattr(st, "apply_deltas", None))
             if other != size_other_before:
                 sess.violation("cache:unconfigured-namespace-touched", tcase, {"before": size_other_before, "after": other})
+            if applied_path and bust == "on-apply" and "x:ns" in namespaces:
+                if cm._ns["x:ns"].size() != 0:
+                    sess.violation("cache:configured-namespace-not-emptied", tcase, {"namespace": "x:ns", "size": cm._ns["x:ns"].size(), "configured": namespaces})
+                else:
+                    sess.count("cache_busts_observed(second namespace)")
+            if applied_path and not (bust == "on-apply" and "x:ns" in namespaces) and cm._ns["x:ns"].size() == 0:
+                sess.violation("cache:unconfigured-namespace-touched", tcase, {"namespace": "x:ns", "configured": namespaces, "mode": bust})
             if applied_path:
                 if bust == "on-apply" and "t2:semantic" in namespaces:
                     if t2size != 0:
